@@ -366,6 +366,15 @@ class MultiAgentProblem(  # type: ignore[misc]
             self._kind.set_effects_kind("INCREASE_EFFECTS")
         elif e.is_decrease():
             self._kind.set_effects_kind("DECREASE_EFFECTS")
+        # static fluents are not computed for multi-agent problems: report the non-static variant
+        if OperatorKind.FLUENT_EXP in self._operators_extractor.get(e.value):
+            t = e.fluent.type
+            if t.is_bool_type():
+                self._kind.set_effects_kind("FLUENTS_IN_BOOLEAN_ASSIGNMENTS")
+            elif t.is_user_type():
+                self._kind.set_effects_kind("FLUENTS_IN_OBJECT_ASSIGNMENTS")
+            else:
+                self._kind.set_effects_kind("FLUENTS_IN_NUMERIC_ASSIGNMENTS")
 
     def _update_problem_kind_condition(self, exp: "up.model.fnode.FNode"):
         ops = self._operators_extractor.get(exp)
